@@ -154,7 +154,10 @@ theorem checkRetry_fd (cfg : Cfg) (st : St) (b : Batch) (f : List FailedP) :
   split
   · exact FD.rfl' _
   · split
-    · exact deliverMany_fd _ _
+    · split
+      · exact (deliverMany_fd _ _).trans (deliver_fd _ _ _)
+      · have := (deliverMany_fd st.outstanding (f.map (fun f => (b.sidsOf f.tp, Outcome.err f.kind)))).trans (FD.rfl' _)
+        simpa using this
     · apply FD.nofire; split <;> simp [firedSids]
 
 theorem checkRetry_fd' (cfg : Cfg) (st : St) (b : Batch) (f : List FailedP) (out : List Sid) :
